@@ -513,7 +513,18 @@ pub fn check_main(args: &[String]) -> i32 {
     // ---- native sessions
     let shipped_exe: Option<PathBuf> = arg_val(args, "--shipped-exe").map(PathBuf::from).filter(|p| p.exists());
     let per = (runs + jobs - 1) / jobs;
-    let mut kids = Vec::new();
+    // a session: runs from..to in one fresh process. When a process dies inside run i (a crash is
+    // an I1 matter), the rest of its range continues in a new process from i+1, so that the other
+    // properties' oracles still see the runs they were promised.
+    let spawn_session = |from: u64, to: u64, shipped: bool| -> std::io::Result<std::thread::JoinHandle<std::io::Result<std::process::Output>>> {
+        let c = Command::new(if shipped { shipped_exe.clone().unwrap_or_else(exe) } else { exe() })
+            .args(["session", "--profile", prof.name(), "--base", &seed.to_string(), "--from", &from.to_string(), "--to", &to.to_string()])
+            .stdout(Stdio::piped())
+            .stderr(Stdio::piped())
+            .spawn()?;
+        Ok(std::thread::spawn(move || c.wait_with_output()))
+    };
+    let mut kids = std::collections::VecDeque::new();
     for j in 0..jobs {
         let (from, to) = (j * per, ((j + 1) * per).min(runs));
         if from >= to {
@@ -521,19 +532,16 @@ pub fn check_main(args: &[String]) -> i32 {
         }
         // every fourth session runs in the binary built with the profile users ship
         let shipped = shipped_exe.is_some() && j % 4 == 3;
-        let child = Command::new(if shipped { shipped_exe.clone().unwrap_or_else(exe) } else { exe() })
-            .args(["session", "--profile", prof.name(), "--base", &seed.to_string(), "--from", &from.to_string(), "--to", &to.to_string()])
-            .stdout(Stdio::piped())
-            .stderr(Stdio::piped())
-            .spawn();
-        match child {
-            Ok(c) => kids.push((from, to, shipped, std::thread::spawn(move || c.wait_with_output()))),
+        match spawn_session(from, to, shipped) {
+            Ok(h) => kids.push_back((from, to, shipped, h)),
             Err(e) => {
                 eprintln!("HARNESS-ERROR cannot spawn session: {e}");
                 return 2;
             }
         }
     }
+    let (mut restarts, max_restarts) = (0u64, 400u64);
+    let mut lost_runs = 0u64;
     let mut counters: BTreeMap<String, u64> = BTreeMap::new();
     let mut classes: BTreeSet<String> = BTreeSet::new();
     let mut digests: BTreeSet<String> = BTreeSet::new();
@@ -543,7 +551,7 @@ pub fn check_main(args: &[String]) -> i32 {
     let mut viols: Vec<Viol> = Vec::new();
     let mut sample_runs: Vec<String> = Vec::new();
     let mut shipped_sessions = 0u64;
-    for (from, to, shipped, h) in kids {
+    while let Some((from, to, shipped, h)) = kids.pop_front() {
         shipped_sessions += u64::from(shipped);
         let out = match h.join() {
             Ok(Ok(o)) => o,
@@ -625,12 +633,29 @@ pub fn check_main(args: &[String]) -> i32 {
                         session_from: from,
                         shipped,
                     });
+                    // the runs behind the fatal one
+                    if idx + 1 < to {
+                        if restarts < max_restarts {
+                            restarts += 1;
+                            match spawn_session(idx + 1, to, shipped) {
+                                Ok(h) => kids.push_back((idx + 1, to, shipped, h)),
+                                Err(e) => harness_err.push(format!("cannot respawn session {}..{to}: {e}", idx + 1)),
+                            }
+                        } else {
+                            lost_runs += to - idx - 1;
+                        }
+                    }
                 }
                 _ => harness_err.push(format!("session {from}..{to} ended abnormally (status {:?}): {}", out.status, se.lines().last().unwrap_or(""))),
             }
         }
     }
     counters.insert("sessions_in_shipped_profile_binary".into(), shipped_sessions);
+    counters.insert("sessions_restarted_after_a_crash".into(), restarts);
+    if lost_runs > 0 {
+        // not a verdict on this property - but not a pass either
+        harness_err.push(format!("{lost_runs} of {runs} runs were not executed: session processes kept dying ({max_restarts} restarts used; see the I1 / C07 check)"));
+    }
     let native_wall = t0.elapsed().as_secs_f64();
     let miri = miri_handle.map(|h| h.join().unwrap_or(MiriResult { workloads: 0, executions: 0, failures: vec![], error: Some("miri thread panicked".into()), wall_s: 0.0, cmds: vec![] }));
     if let Some(m) = &miri {
@@ -720,7 +745,10 @@ pub fn check_main(args: &[String]) -> i32 {
             }
             None => {
                 min_note.push_str("could not be reproduced in a fresh process from the seed: the failure depends on something the simulator does not control");
-                let _ = std::fs::write(&path, format!("# NOT REPRODUCED. property {prop} {} [{}] run idx={} seed={} base={seed}\n# {}\n", first.inv, first.key, first.idx, first.seed, first.msg));
+                if others.iter().any(|o| o.contains("I1:")) {
+                    min_note.push_str(" - memory-unsafe behaviour (an I1 failure: crash, double free, write after free) was observed in the same workload, and what a program does after that is not a function of the seed; `./check C07` reports that failure with an exact replay");
+                }
+                let _ = std::fs::write(&path, format!("# NOT REPRODUCED. property {prop} {} [{}] run idx={} seed={} base={seed}\n# {}\n# {}\n", first.inv, first.key, first.idx, first.seed, first.msg, min_note));
             }
         }
         println!("{min_note}");
